@@ -336,6 +336,17 @@ func makeField(v reflect.Value, params fieldParameters) (encoder, error) {
 			tag.class = ClassUniversal
 			tag.constructed = false
 			tag.tagNumber = uint64(params.stringType)
+			if params.stringType == 0 {
+				// without a string parameter the Go type names the ASN.1 character string type
+				switch fieldType {
+				case UTF8StringType:
+					tag.tagNumber = TagUTF8String
+				case IA5StringType:
+					tag.tagNumber = TagIA5String
+				case GraphicStringType:
+					tag.tagNumber = TagGraphicString
+				}
+			}
 
 			berType.value = stringEncoder(v.String())
 		}
